@@ -105,6 +105,14 @@ struct Tr<'a> {
     // list), a pointer into the buffer is an element index, and the list is threaded through the pointer operations
     data_mode: bool,
     has_data: bool,
+    // `-> &mut Self` in data mode: the function's value is the new matrix
+    ret_self: bool,
+    // `let mut` locals in scope (data mode): they are threaded through `for` and `loop` bodies together with the element list
+    mut_locals: Vec<String>,
+    // `let p = v.get_unchecked_mut(i)`: p stands for element i of the local vector v; (vector, frozen index, value read)
+    aliases: HashMap<String, (String, String, String)>,
+    // inside a `loop`: the tuple of the loop state (`break` / falling off the end of the body yield it)
+    loop_state: Option<String>,
 }
 
 // the functions of swap.rs translated in data mode
@@ -120,7 +128,31 @@ fn data_fn(owner: &str, name: &str) -> bool {
                 | "iter_nth_minor_axis_vector"
                 | "iter_nth_major_axis_vector_unchecked"
                 | "iter_nth_minor_axis_vector_unchecked"
+                | "iter_nth_major_axis_vector_mut"
+                | "iter_nth_minor_axis_vector_mut"
+                | "iter_nth_major_axis_vector_unchecked_mut"
+                | "iter_nth_minor_axis_vector_unchecked_mut"
+                | "iter_nth_row"
+                | "iter_nth_col"
+                | "iter_nth_row_mut"
+                | "iter_nth_col_mut"
+                | "transpose"
+                | "switch_order"
+                | "switch_order_without_rearrangement"
+                | "set_order"
+                | "set_order_without_rearrangement"
         )
+}
+
+// functions that (transitively) contain the cycle-following `loop` of transpose: they take the element size and the fuel
+fn fuel_fn(name: &str) -> bool {
+    matches!(name, "transpose" | "switch_order" | "set_order")
+}
+
+// the row / column views: a view (also a mutable one) is the list of the elements it hands out, in order; such a
+// function does not change the matrix by itself
+fn view_fn(name: &str) -> bool {
+    name.starts_with("iter_nth_")
 }
 
 fn fn_uses_es(f: &FnInfo) -> bool {
@@ -130,6 +162,11 @@ fn fn_uses_es(f: &FnInfo) -> bool {
 // functions of the pointer-level iterator machines: element size, alignment and the allocation bounds are parameters
 fn ptr_owner(owner: &str) -> bool {
     owner == "IterVectorsMut" || owner == "IterNthVectorMut"
+}
+
+// functions that build or drive the pointer-level machines (they take es, al and the allocation bounds)
+fn ptr_fn(owner: &str, name: &str) -> bool {
+    ptr_owner(owner) || (owner == "Matrix" && matches!(name, "iter_rows_mut" | "iter_cols_mut"))
 }
 
 fn has_hook_cfg(attrs: &[Attribute]) -> bool {
@@ -148,6 +185,9 @@ impl<'a> Tr<'a> {
         })
     }
     fn callee_is_mut(&self, owner: &str, name: &str) -> bool {
+        if owner == "Matrix" && view_fn(name) {
+            return false;
+        }
         self.cx.fns.get(&(owner.to_string(), name.to_string())).map_or(false, |f| {
             f.sig.inputs.iter().any(|a| matches!(a, FnArg::Receiver(r) if r.mutability.is_some() && r.reference.is_some()))
         })
@@ -197,6 +237,7 @@ impl<'a> Tr<'a> {
                     Ty::Named(s) if s == "NonNull" && name == "addr" => Ty::Usize,
                     Ty::Named(s) if s == "NonNull" && name == "as_mut" => Ty::Named("RefMut".into()),
                     Ty::Named(s) if s == "Vec" && name == "len" => Ty::Usize,
+                    Ty::Named(s) if s == "Vec" && name == "as_mut_ptr" => Ty::Named("RawPtr".into()),
                     Ty::Named(s) if s == "Vec" && name == "is_empty" => Ty::Bool,
                     Ty::Named(s) if s == "AsIndex" => Ty::Usize,
                     Ty::Named(s) if s == "Shape" && name == "into" => Ty::Named(s),
@@ -218,6 +259,9 @@ impl<'a> Tr<'a> {
                 }
                 if p == "without_provenance_mut" {
                     return Ty::Named("RawPtr".into());
+                }
+                if p == "NonZero::new_unchecked" {
+                    return Ty::Usize;
                 }
                 if p == "Some" {
                     return Ty::Opt(Box::new(c.args.first().map_or(Ty::Unknown, |a| self.ty_of(a, env))));
@@ -277,6 +321,10 @@ impl<'a> Tr<'a> {
         if self.data_mode && !self.self_mut {
             return format!("Val {}", v);
         }
+        if self.data_mode && self.ret_self {
+            let me = if self.has_data { "(set_data self data)" } else { "self" };
+            return format!("Val {}", me);
+        }
         if self.data_mode {
             let me = if self.has_data { "(set_data self data)" } else { "self" };
             let r = if v == "(Ok self)" { "(Ok tt)".to_string() } else { v };
@@ -286,6 +334,30 @@ impl<'a> Tr<'a> {
             format!("Val (self, {})", v)
         } else {
             format!("Val {}", v)
+        }
+    }
+    // the loop-carried state in data mode: the `let mut` locals in scope, then the element list
+    fn state_vars(&self) -> Vec<String> {
+        let mut v = self.mut_locals.clone();
+        if self.has_data {
+            v.push("data".into());
+        }
+        v
+    }
+    fn state_tuple(&self) -> String {
+        let v = self.state_vars();
+        if v.len() == 1 {
+            v[0].clone()
+        } else {
+            format!("({})", v.join(", "))
+        }
+    }
+    fn state_unpack(&self, from: &str) -> String {
+        let v = self.state_vars();
+        if v.len() == 1 {
+            format!("let {} := {} in", v[0], from)
+        } else {
+            format!("let '({}) := {} in", v.join(", "), from)
         }
     }
     fn mutates_self(stmts: &[Stmt]) -> bool {
@@ -322,7 +394,95 @@ impl<'a> Tr<'a> {
                     }
                 }
             }
-            // for i in 0..n { body }  with the element list as the loop state
+            // let mut v = vec![false; n];
+            if let Stmt::Local(l) = s {
+                if let (Pat::Ident(pi), Some(init)) = (&l.pat, &l.init) {
+                    if pi.mutability.is_some() {
+                        let name = pi.ident.to_string();
+                        if let Expr::Macro(mac) = &*init.expr {
+                            let toks = mac.mac.tokens.to_string();
+                            let parts: Vec<&str> = toks.split(';').collect();
+                            if tstr(&mac.mac.path) == "vec" && parts.len() == 2 && parts[0].trim() == "false" {
+                                let Ok(n_expr) = syn::parse_str::<Expr>(parts[1]) else { return "(*UNSUPPORTED vec! length*)".into() };
+                                return self.expr(&n_expr, env, &mut |me, n, env| {
+                                    env.insert(name.clone(), Ty::Named("VecBool".into()));
+                                    me.mut_locals.push(name.clone());
+                                    format!("let {} := zrepeat false {} in\n  {}", name, n, me.block(rest, env, k))
+                                });
+                            }
+                            return format!("(*UNSUPPORTED macro {}*)", tstr(&mac.mac.path));
+                        }
+                        // any other `let mut x = e;`: an ordinary binding that later assignments shadow
+                        let ty = self.ty_of(&init.expr, env);
+                        return self.expr(&init.expr, env, &mut |me, v, env| {
+                            env.insert(name.clone(), ty.clone());
+                            me.mut_locals.push(name.clone());
+                            format!("let {} := {} in\n  {}", name, v, me.block(rest, env, k))
+                        });
+                    }
+                }
+                // let p = unsafe { v.get_unchecked_mut(i) };   p stands for element i of the local vector v
+                if let (Pat::Ident(pi), Some(init)) = (&l.pat, &l.init) {
+                    let inner: Option<&Expr> = match &*init.expr {
+                        Expr::Unsafe(u) if u.block.stmts.len() == 1 => match &u.block.stmts[0] {
+                            Stmt::Expr(e, None) => Some(e),
+                            _ => None,
+                        },
+                        e => Some(e),
+                    };
+                    if let Some(Expr::MethodCall(mc)) = inner {
+                        let recv = tstr(&mc.receiver);
+                        if mc.method == "get_unchecked_mut" && self.mut_locals.contains(&recv) && mc.args.len() == 1 {
+                            let p = pi.ident.to_string();
+                            return self.expr(&mc.args[0], env, &mut |me, i, env| {
+                                let (iv, vv) = (format!("{}_i", p), format!("{}_v", p));
+                                me.aliases.insert(p.clone(), (recv.clone(), iv.clone(), vv.clone()));
+                                env.insert(p.clone(), Ty::Bool);
+                                format!(
+                                    "let {} := {} in\n  match znth_opt {} {} with\n  | None => UB UBIndex\n  | Some {} =>\n  {}\n  end",
+                                    iv, i, iv, recv, vv, me.block(rest, env, k)
+                                )
+                            });
+                        }
+                    }
+                }
+            }
+            // break;
+            if let Stmt::Expr(Expr::Break(_), _) = s {
+                return match &self.loop_state {
+                    Some(_) => format!("Val (false, {})", self.state_tuple()),
+                    None => "(*UNSUPPORTED break outside loop*)".into(),
+                };
+            }
+            // *p = e  (p an element alias)   |   x = e  (x a `let mut` local)
+            if let Stmt::Expr(Expr::Assign(a), _) = s {
+                let lhs = tstr(&a.left);
+                if let Some((vec, iv, _)) = lhs.strip_prefix('*').and_then(|n| self.aliases.get(n)).cloned() {
+                    return self.expr(&a.right, env, &mut |me, v, env| format!("let {} := zupd {} {} {} in\n  {}", vec, vec, iv, v, me.block(rest, env, k)));
+                }
+                if self.mut_locals.contains(&lhs) {
+                    return self.expr(&a.right, env, &mut |me, v, env| format!("let {} := {} in\n  {}", lhs, v, me.block(rest, env, k)));
+                }
+            }
+            // loop { body }: the body maps the loop state to (continue?, state); `fuel` bounds the number of iterations
+            if let Stmt::Expr(Expr::Loop(lp), _) = s {
+                let st = self.state_tuple();
+                let unpack = self.state_unpack("st");
+                let saved = (self.mut_locals.clone(), self.loop_state.clone());
+                self.loop_state = Some(st.clone());
+                let body = self.block(&lp.body.stmts, &mut env.clone(), &mut |me, _, _| format!("Val (true, {})", me.state_tuple()));
+                self.mut_locals = saved.0;
+                self.loop_state = saved.1;
+                return format!(
+                    "let* st := loop_res fuel {} (fun st => {}\n    {}) in\n  {}\n  {}",
+                    st,
+                    unpack,
+                    body,
+                    unpack,
+                    self.block(rest, env, k)
+                );
+            }
+            // for i in 0..n { body }  with the `let mut` locals and the element list as the loop state
             if let Stmt::Expr(Expr::ForLoop(fl), _) = s {
                 let var = tstr(&fl.pat);
                 let Expr::Range(rg) = &*fl.expr else { return "(*UNSUPPORTED loop range*)".into() };
@@ -334,8 +494,29 @@ impl<'a> Tr<'a> {
                 return self.expr(hi, env, &mut |me, n, env| {
                     let mut e2 = env.clone();
                     e2.insert(var.clone(), Ty::Usize);
-                    let body = me.block(&fl.body.stmts, &mut e2, &mut |_, _, _| "Val data".to_string());
-                    format!("let* data := for_res (zseq {}) data (fun {} data =>\n    {}) in\n  {}", n, var, body, me.block(rest, env, k))
+                    let st = me.state_tuple();
+                    let saved = (me.mut_locals.clone(), me.loop_state.take());
+                    if me.state_vars().len() == 1 {
+                        let body = me.block(&fl.body.stmts, &mut e2, &mut |_, _, _| "Val data".to_string());
+                        me.mut_locals = saved.0;
+                        me.loop_state = saved.1;
+                        return format!("let* data := for_res (zseq {}) data (fun {} data =>\n    {}) in\n  {}", n, var, body, me.block(rest, env, k));
+                    }
+                    let unpack = me.state_unpack("st");
+                    let outer_vars = me.state_vars();
+                    let body = me.block(&fl.body.stmts, &mut e2, &mut |_, _, _| format!("Val ({})", outer_vars.join(", ")));
+                    me.mut_locals = saved.0;
+                    me.loop_state = saved.1;
+                    format!(
+                        "let* st := for_res (zseq {}) {} (fun {} st => {}\n    {}) in\n  {}\n  {}",
+                        n,
+                        st,
+                        var,
+                        unpack,
+                        body,
+                        unpack,
+                        me.block(rest, env, k)
+                    )
                 });
             }
             // ptr::swap(x, y);  ptr::swap_nonoverlapping(x, y, count);
@@ -420,7 +601,8 @@ impl<'a> Tr<'a> {
                     Expr::If(i)
                         if self.self_mut
                             && !tstr(&i.then_branch).contains("return")
-                            && (Self::mutates_self(&i.then_branch.stmts) || i.else_branch.as_ref().map_or(false, |(_, e)| tstr(e).contains("self."))) =>
+                            && !tstr(&i.then_branch).contains("break")
+                            && (self.data_mode || Self::mutates_self(&i.then_branch.stmts) || i.else_branch.as_ref().map_or(false, |(_, e)| tstr(e).contains("self."))) =>
                     {
                         self.expr(&i.cond, env, &mut |me, c, env| {
                             let th = me.block(&i.then_branch.stmts, &mut env.clone(), &mut |_, _, _| "Val self".to_string());
@@ -502,7 +684,7 @@ impl<'a> Tr<'a> {
     }
     fn call(&mut self, owner: &str, name: &str, args: Vec<String>, env: &mut Env, k: &mut dyn FnMut(&mut Self, String, &mut Env) -> String) -> String {
         let t = self.fresh("r");
-        let es = if ptr_owner(owner) {
+        let es = if ptr_fn(owner, name) {
             " es al base bytes"
         } else if self.callee_uses_es(owner, name) {
             self.uses_es = true;
@@ -515,6 +697,10 @@ impl<'a> Tr<'a> {
     fn expr(&mut self, e: &Expr, env: &mut Env, k: &mut dyn FnMut(&mut Self, String, &mut Env) -> String) -> String {
         match e {
             Expr::Lit(l) => k(self, tstr(l).trim_end_matches("usize").trim_end_matches("isize").to_string(), env),
+            Expr::Path(p) if self.aliases.contains_key(&tstr(p)) => {
+                let v = self.aliases[&tstr(p)].2.clone();
+                k(self, v, env)
+            }
             Expr::Path(p) => {
                 let n = tstr(p);
                 let n = match n.as_str() {
@@ -707,6 +893,10 @@ impl<'a> Tr<'a> {
                 self.exprs(&args, env, &mut |me, vs, env| match p.as_str() {
                     "Ok" | "Err" | "Some" => k(me, format!("({} {})", p, vs.join(" ")), env),
                     "without_provenance_mut" => k(me, vs[0].clone(), env),
+                    "NonZero::new_unchecked" => {
+                        let t = me.fresh("z");
+                        format!("let* {} := nz_new_unchecked {} in\n  {}", t, vs[0], k(me, t.clone(), env))
+                    }
                     "NonNull::new_unchecked" => {
                         let t = me.fresh("p");
                         format!("let* {} := nn_new_unchecked {} in\n  {}", t, vs[0], k(me, t.clone(), env))
@@ -725,7 +915,7 @@ impl<'a> Tr<'a> {
             Expr::MethodCall(m)
                 if self.data_mode && m.method == "take" && {
                     let t = tstr(&m.receiver);
-                    t.starts_with("self.data.iter().skip(") && t.contains(").step_by(")
+                    (t.starts_with("self.data.iter().skip(") || t.starts_with("self.data.iter_mut().skip(")) && t.contains(").step_by(")
                 } =>
             {
                 // self.data.iter().skip(a).step_by(b).take(c): the std adaptor chain as executed (zview; step_by(0) panics)
@@ -759,6 +949,7 @@ impl<'a> Tr<'a> {
                     }
                     (Ty::Opt(_), "ok_or") => k(me, format!("(ok_or {} {})", vs[0], vs[1]), env),
                     (Ty::Named(s), "len") if s == "Vec" => k(me, format!("(vec_len {})", vs[0]), env),
+                    (Ty::Named(s), "as_mut_ptr") if s == "Vec" && ptr_owner(&me.owner) => k(me, "base".to_string(), env),
                     (Ty::Named(s), "is_empty") if s == "Vec" => k(me, format!("(vec_len {} =? 0)", vs[0]), env),
                     // the accessors of an index value: caller code, called once per occurrence, in this order
                     (Ty::Named(s), "row") | (Ty::Named(s), "col") if s == "AsIndex" => {
@@ -769,6 +960,19 @@ impl<'a> Tr<'a> {
                         let s = s.clone();
                         let t = me.fresh("r");
                         format!("let* {} := G_{}_{} md {} in\n  {}", t, s, name, vs.join(" "), k(me, t.clone(), env))
+                    }
+                    (Ty::Named(s), _)
+                        if me.data_mode
+                            && recv_is_self
+                            && data_fn(s, &name)
+                            && me.cx.fns.get(&(s.clone(), name.clone())).map_or(false, |f| tstr(&f.sig.output) == "->&mutSelf") =>
+                    {
+                        // a data-mode method returning `&mut Self`: its value is the new matrix
+                        if me.has_data {
+                            return "(*UNSUPPORTED method call on self while a raw pointer into self.data is live*)".into();
+                        }
+                        let extra = if fuel_fn(&name) { " es fuel" } else { "" };
+                        format!("let* self := G_{}_{} md{} {} in\n  {}", s, name, extra, vs.join(" "), k(me, "self".to_string(), env))
                     }
                     (Ty::Named(s), _) if me.data_mode && recv_is_self && data_fn(s, &name) => {
                         // another data-mode method: it returns the new matrix together with its result; in tail position
@@ -787,6 +991,26 @@ impl<'a> Tr<'a> {
                         let s = s.clone();
                         if me.callee_is_mut(&s, &name) {
                             // a `&mut self` method: its result is the new receiver
+                            let recv_txt = tstr(&m.receiver);
+                            if me.data_mode && recv_txt.starts_with("self.") && !recv_txt[5..].contains('.') {
+                                // self.field.method(): the field of the matrix is replaced by the method's new receiver
+                                let t = me.fresh("r");
+                                return format!(
+                                    "let* {} := G_{}_{} md {} in\n  let self := set_m_{} self {} in\n  {}",
+                                    t,
+                                    s,
+                                    name,
+                                    vs.join(" "),
+                                    &recv_txt[5..],
+                                    t,
+                                    k(me, t.clone(), env)
+                                );
+                            }
+                            let returns_self = me.cx.fns.get(&(s.clone(), name.clone())).map_or(false, |f| tstr(&f.sig.output) == "->&mutSelf");
+                            if !recv_is_self && returns_self && matches!(&*m.receiver, Expr::Call(_) | Expr::MethodCall(_)) {
+                                // a `&mut self -> &mut Self` method on a temporary: the value is the updated temporary
+                                return me.call(&s, &name, vs, env, k);
+                            }
                             if !recv_is_self {
                                 return format!("(*UNSUPPORTED &mut method {} on a non-self receiver*)", name);
                             }
@@ -868,11 +1092,25 @@ const TARGETS: &[(&str, &str)] = &[
     ("Matrix", "swap_minor_axis_vectors"),
     ("Matrix", "swap_rows"),
     ("Matrix", "swap_cols"),
+    // lib.rs: transpose (cycle following over raw pointers) and the order changes built on it (data mode)
+    ("Matrix", "transpose"),
+    ("Matrix", "switch_order"),
+    ("Matrix", "switch_order_without_rearrangement"),
+    ("Matrix", "set_order"),
+    ("Matrix", "set_order_without_rearrangement"),
     // iter.rs: the immutable row / column views (data mode)
     ("Matrix", "iter_nth_major_axis_vector_unchecked"),
     ("Matrix", "iter_nth_minor_axis_vector_unchecked"),
     ("Matrix", "iter_nth_major_axis_vector"),
     ("Matrix", "iter_nth_minor_axis_vector"),
+    ("Matrix", "iter_nth_major_axis_vector_unchecked_mut"),
+    ("Matrix", "iter_nth_minor_axis_vector_unchecked_mut"),
+    ("Matrix", "iter_nth_major_axis_vector_mut"),
+    ("Matrix", "iter_nth_minor_axis_vector_mut"),
+    ("Matrix", "iter_nth_row"),
+    ("Matrix", "iter_nth_col"),
+    ("Matrix", "iter_nth_row_mut"),
+    ("Matrix", "iter_nth_col_mut"),
     // the pointer-level state machines of iter/iter_mut.rs
     ("IterNthVectorMut", "assemble"),
     ("IterNthVectorMut", "next"),
@@ -882,6 +1120,12 @@ const TARGETS: &[(&str, &str)] = &[
     ("IterVectorsMut", "next"),
     ("IterVectorsMut", "next_back"),
     ("IterVectorsMut", "size_hint"),
+    // the constructors of the outer machine and the two public entry points that select them
+    ("IterVectorsMut", "empty"),
+    ("IterVectorsMut", "over_major_axis"),
+    ("IterVectorsMut", "over_minor_axis"),
+    ("Matrix", "iter_rows_mut"),
+    ("Matrix", "iter_cols_mut"),
 ];
 
 fn main() {
@@ -929,7 +1173,7 @@ fn main() {
         for a in &sig.inputs {
             match a {
                 FnArg::Receiver(r) => {
-                    self_mut = r.mutability.is_some() && r.reference.is_some();
+                    self_mut = r.mutability.is_some() && r.reference.is_some() && !(*o == "Matrix" && (view_fn(n) || ptr_fn(o, n)));
                     params.push(format!("(self : G{})", o));
                 }
                 FnArg::Typed(t) => {
@@ -942,13 +1186,27 @@ fn main() {
         }
         let ret = match &sig.output {
             ReturnType::Default => Ty::Unit,
+            // iter_rows_mut / iter_cols_mut return `impl Iterator`: the value is the IterVectorsMut they build
+            ReturnType::Type(_, _) if *o == "Matrix" && ptr_fn(o, n) => Ty::Named("IterVectorsMut".into()),
             ReturnType::Type(_, t) => conv_ty(t, o),
         };
         let dm = data_fn(o, n);
-        let mut tr = Tr { cx: &mut cx, owner: o.to_string(), self_mut, uses_es: uses_es0, data_mode: dm, has_data: false };
+        let ret_self = dm && tstr(&sig.output) == "->&mutSelf";
+        let mut tr = Tr {
+            cx: &mut cx,
+            owner: o.to_string(),
+            self_mut,
+            uses_es: uses_es0,
+            data_mode: dm,
+            has_data: false,
+            ret_self,
+            mut_locals: vec![],
+            aliases: HashMap::new(),
+            loop_state: None,
+        };
         let body = tr.block(&block.stmts, &mut env, &mut |me, v, _| me.finish(v));
         let _ = tr.self_mut;
-        let es = if ptr_owner(o) {
+        let es = if ptr_fn(o, n) {
             " (es al base bytes : Z)"
         } else if uses_es0 {
             " (es : Z)"
@@ -958,7 +1216,9 @@ fn main() {
         let rty = if self_mut && tstr(&sig.output) != "->&mutSelf" { format!("(G{} * {})", o, coq_ty(&ret)) } else { coq_ty(&ret) };
         if dm {
             let ps: Vec<String> = params.iter().map(|p| if p.starts_with("(self") { "(self : matrix A)".to_string() } else { p.clone() }).collect();
-            let rty = if self_mut {
+            let rty = if ret_self {
+                "(matrix A)".to_string()
+            } else if self_mut {
                 "(matrix A * result unit)".to_string()
             } else {
                 match &ret {
@@ -966,7 +1226,8 @@ fn main() {
                     _ => "(list A)".to_string(),
                 }
             };
-            println!("Definition G_{}_{} {{A : Type}} (md : cfg) {} : res {} :=\n  {}.\n", o, n, ps.join(" "), rty, body);
+            let extra = if fuel_fn(n) { "(es : Z) (fuel : nat) " } else { "" };
+            println!("Definition G_{}_{} {{A : Type}} (md : cfg) {}{} : res {} :=\n  {}.\n", o, n, extra, ps.join(" "), rty, body);
             continue;
         }
         println!("Definition G_{}_{} (md : cfg){} {} : res {} :=\n  {}.\n", o, n, es, params.join(" "), rty, body);
